@@ -199,15 +199,27 @@ def main():
     else:
         problem("workspace_lock.rs: Semaphore::new(<literal>) not found exactly once")
     body = fn_body(wl, "requires_workspace_lock")
-    lockfree = None
+    listed = None        # names the classification lists
+    default_lock = None  # answer for a name it does not list
     if body is None:
         problem("requires_workspace_lock not found")
     else:
-        mm = re.fullmatch(r"\s*!\s*matches!\s*\(\s*tool_name\s*,\s*((?:\"[^\"]*\"\s*\|?\s*)+)\)\s*", body)
-        if not mm:
-            problem("requires_workspace_lock is not `!matches!(tool_name, \"..\" | ..)`")
+        names_alt = r"((?:\"[^\"]*\"\s*\|?\s*)+)"
+        mm = re.fullmatch(r"\s*(!?)\s*matches!\s*\(\s*tool_name\s*,\s*" + names_alt + r"\)\s*", body)
+        mc = re.fullmatch(r"\s*(!?)\s*([A-Z][A-Z0-9_]*)\s*\.\s*contains\s*\(\s*&\s*tool_name\s*\)\s*", body)
+        if mm:
+            listed = re.findall(r"\"([^\"]*)\"", mm.group(2))
+            default_lock = mm.group(1) == "!"
+        elif mc:
+            cm = re.search(r"\bconst\s+" + mc.group(2) + r"\s*:\s*&\s*\[\s*&\s*str\s*\]\s*=\s*&\s*\[([^\]]*)\]\s*;", wl)
+            if not cm or not re.fullmatch(r"\s*(?:\"[^\"]*\"\s*,?\s*)*", cm.group(1)):
+                problem("requires_workspace_lock: the constant list `%s` is not a literal `&[&str]`" % mc.group(2))
+            else:
+                listed = re.findall(r"\"([^\"]*)\"", cm.group(1))
+                default_lock = mc.group(1) == "!"
         else:
-            lockfree = re.findall(r"\"([^\"]*)\"", mm.group(1))
+            problem("requires_workspace_lock is neither `[!]matches!(tool_name, \"..\" | ..)` nor `[!]CONST.contains(&tool_name)`")
+    lockfree = listed
     # acquire must hand out a permit of this semaphore that lives as long as the guard
     acq = fn_body(wl, "acquire")
     if acq is None or not re.search(r"acquire_owned\s*\(\s*\)", acq) or "WorkspaceGuard { _permit: permit }" not in acq:
@@ -255,6 +267,7 @@ def main():
 
     # ---- registered tools (non-test code of every crate)
     registered = []
+    aliases = []
     for f in sorted(glob.glob(os.path.join(R, "crates", "*", "src", "**", "*.rs"), recursive=True)):
         if os.path.basename(f) in ("tests.rs",) or f.endswith("_tests.rs"):
             continue
@@ -271,11 +284,14 @@ def main():
                 problem(f"{os.path.relpath(f, R)}: register() with a non-literal name `{m.group(1).strip()}`")
             else:
                 registered.append(m.group(2))
-        for m in re.finditer(r"\.\s*register_alias\s*\(\s*(\"([^\"]*)\"|[^,]+),", src):
-            if m.group(2) is None:
+        for m in re.finditer(r"\.\s*register_alias\s*\(\s*(\"([^\"]*)\"|[^,]+),\s*(\"([^\"]*)\"|[^,)]+)\s*,?\s*\)", src):
+            if m.group(2) is None or m.group(4) is None:
                 problem(f"{os.path.relpath(f, R)}: register_alias() with a non-literal name")
             else:
                 registered.append(m.group(2))
+                aliases.append((m.group(2), m.group(4)))
+        if len(re.findall(r"\.\s*register_alias\s*\(", src)) != len([1 for m in re.finditer(r"\.\s*register_alias\s*\(\s*\"[^\"]*\"\s*,\s*\"[^\"]*\"", src)]):
+            problem(f"{os.path.relpath(f, R)}: a register_alias() call was not understood")
     if not registered:
         problem("no registered tools found")
 
@@ -388,8 +404,10 @@ def main():
     out.append("  permits := %d;" % (permits if permits is not None else 0))
     out.append("  shared_lock := %s;" % ("true" if shared else "false"))
     out.append("  stray_sites := %d;" % max(stray, 0))
-    out.append("  lockfree := [%s];" % "; ".join(coq_str(s) for s in (lockfree or [])))
+    out.append("  class_default_lock := %s;" % ("true" if default_lock else "false"))
+    out.append("  class_listed := [%s];" % "; ".join(coq_str(s) for s in (listed or [])))
     out.append("  registered := [%s];" % "; ".join(coq_str(s) for s in registered))
+    out.append("  aliases := [%s];" % "; ".join("(%s, %s)" % (coq_str(a), coq_str(t)) for a, t in aliases))
     out.append("  span_tool := %s;" % coq_ops(spans["tool"]))
     out.append("  span_ro := %s;" % coq_ops(spans["ro"]))
     out.append("  span_loop_tool := %s;" % coq_ops(spans["loop_tool"]))
@@ -398,7 +416,7 @@ def main():
     out.append("  span_task := %s" % coq_ops(spans["task"]))
     out.append("|}.")
     out.append("")
-    out.append("(* names as read: lockfree = %s; registered = %s *)" % (lockfree, registered))
+    out.append("(* names as read: default_lock = %s; listed = %s; registered = %s; aliases = %s *)" % (default_lock, listed, registered, aliases))
     out.append("")
     out.append("Lemma gen_lockspans_found : gen_ok_lockspans = true.")
     out.append("Proof. vm_compute. reflexivity. Qed.")
@@ -416,7 +434,7 @@ def main():
         pass
     if old != new:
         open(path, "w").write(new)
-    print("lockspan: ok=%s permits=%s shared=%s stray=%s lockfree=%s registered=%s" % (ok, permits, shared, stray, lockfree, registered))
+    print("lockspan: ok=%s permits=%s shared=%s stray=%s default_lock=%s listed=%s registered=%s aliases=%s" % (ok, permits, shared, stray, default_lock, listed, registered, aliases))
     for k in ("tool", "ro", "loop_tool", "loop_ro", "ckpt", "task"):
         print("  span %-9s %s" % (k, " ".join(spans[k])))
     for p in problems:
